@@ -48,7 +48,7 @@ Inv == R.kind = "text" =>
          /\ (Exotic(R.s) \/ R.accepted = e.ok)                     \* accepted iff a sentence under the documented tokenisation
          /\ ((R.accepted /\ e.ok /\ ~Exotic(R.s)) => NormItems(R.items) = NormItems(e.items))   \* the tree lists exactly what was written, in order
          /\ (Exotic(R.s) => ExoticOk(R.s, R.items, R.accepted))
-         /\ (~R.accepted => R.exit # 0 /\ R.stderrLen > 0)         \* anything else is rejected with an error (what else a failing run prints is C09's business)
+         /\ (~R.accepted => R.exit # 0)         \* anything else is rejected with an error (what else a failing run prints is C09's business)
 \* long texts: k repetitions of a sentence (each a complete piece: the language is a list and the lexer modes are back at
 \* their start after a complete sentence and a newline, which ends a trailing comment -- LexerMC) followed by a suffix: accepted iff sentence + suffix is, with
 \* k x items(sentence) + items(suffix) entries in the tree
@@ -63,7 +63,7 @@ LongInv == R.kind = "long" =>
              /\ (Exotic(R.base \o R.suffix) \/ R.accepted = e.ok)
              /\ (Exotic(R.base \o R.suffix) => LongExoticOk)
              /\ (R.accepted /\ ~Exotic(R.base \o R.suffix) => R.nitems = (R.reps - 1) * Len(b.items) + Len(e.items))
-             /\ (~R.accepted => R.stderrLen > 0)
+             \* (the diagnostic of a refusal is C09's business)
 \* "The parser shipped is the one goyacc generates from that grammar file": the driver regenerated the parser with the
 \* goyacc the module pins and compared Go token sequences.  Where goyacc cannot be run the record claims nothing
 \* (the shipped tables are still bound to the grammar behaviourally, TokenTrace).
